@@ -16,7 +16,7 @@ From RU Require Import Base.Prelude Base.Utf8 Base.Utf8Facts Model.AsciiSet Gen.
   Proofs.C01_EqClasses Proofs.C01_EqAuthSpec Proofs.C01_EqAuthModel Proofs.C01_EqAuth Proofs.C01_EqClasses2
   Proofs.C01_EqRel Proofs.C01_EqRelPath Proofs.C01_EqRelArms Proofs.C01_EqRelBase
   Proofs.C01_EqSpSpec Proofs.C01_EqSpPath Proofs.C01_EqSpModel Proofs.C01_EqSp Proofs.C01_EqSpKnown
-  Proofs.C01_EqAbs Proofs.C01_EqSpBase Proofs.C01_EqAsm Proofs.C01_EqShape.
+  Proofs.C01_EqAbs Proofs.C01_EqSpBase Proofs.C01_EqSpBare Proofs.C01_EqAsm Proofs.C01_EqShape.
 
 (* ================= suffixes ================= *)
 Definition suffix_of (s t : list N) : Prop := exists pre, t = pre ++ s.
@@ -367,18 +367,18 @@ Proof.
   destruct (is_sl c) eqn:Esl.
   - assert (is_path_end c = true) as Hpe by (unfold is_path_end; unfold is_sl in Esl; lia).
     destruct t as [|c2 T].
-    + apply orb_true_iff. left. apply orb_true_iff. left. apply orb_true_iff. left. apply orb_true_iff. left. 
+    + apply orb_true_iff. left. apply orb_true_iff. left. apply orb_true_iff. left. apply orb_true_iff. left. apply orb_true_iff. left. 
       unfold in_class_rel_abs_s. rewrite Hsb, Ecl, Esl. reflexivity.
     + destruct (is_sl c2) eqn:Esl2.
-      * apply orb_true_iff. left. apply orb_true_iff. left. apply orb_intro_r. rewrite Hcan. cbn [andb].
+      * apply orb_true_iff. left. apply orb_true_iff. left. apply orb_true_iff. left. apply orb_intro_r. rewrite Hcan. cbn [andb].
         unfold in_class_rel_authority_s. rewrite Hop, Hsp, Hnf, Ecl, Esl, Esl2. cbn [negb andb].
         apply (sp_class_ok_nodrive_from (Some c2) T). exact (hds_suffix [c] None c2 T Hd).
-      * apply orb_true_iff. left. apply orb_true_iff. left. apply orb_true_iff. left. apply orb_true_iff. left. 
+      * apply orb_true_iff. left. apply orb_true_iff. left. apply orb_true_iff. left. apply orb_true_iff. left. apply orb_true_iff. left. 
         unfold in_class_rel_abs_s. rewrite Hsb, Ecl, Esl, Esl2. cbn [negb andb].
         change (@nil N) with (upe in_path_set []).
         apply (spath_ok_s_raw (c2 :: T) c [] []); [exact Hpe | reflexivity | reflexivity|].
         exact (hds_suffix [] None c (c2 :: T) Hd).
-  - apply orb_true_iff. left. apply orb_true_iff. left. apply orb_true_iff. left. apply orb_intro_r.
+  - apply orb_true_iff. left. apply orb_true_iff. left. apply orb_true_iff. left. apply orb_true_iff. left. apply orb_intro_r.
     unfold in_class_rel_path_s. rewrite Hsb, Ecl, Hs, Esl, E63, E35. cbn [negb andb].
     assert (serialize_path sb = flat_map (fun s => 47 :: s) (Whatwg.path_segments sb)) as EP.
     { unfold serialize_path, Whatwg.path_segments. unfold has_opaque_path in Hop. destruct (su_path sb); [discriminate Hop | reflexivity]. }
@@ -431,28 +431,25 @@ Proof.
   repeat split.
 Qed.
 
-(* the rest after "sch:" is empty or starts with '?' / '#': the one shape of a same-scheme reference that is
-   not in a proved class *)
-Definition same_scheme_bare (sb : spec_url) (input : list N) : bool :=
-  match spec_scheme (spec_clean input) with
-  | Some (sch, R) => list_eqb sch (su_scheme sb) && is_special_scheme sch
-                     && match R with [] => true | c :: _ => is_qh c end
-  | None => false
-  end.
-
 Theorem same_scheme_base_covers dbg shs b sb input R :
   good_base dbg shs b sb -> sp_base_ok sb = true ->
-  spec_scheme (spec_clean input) = Some (su_scheme sb, R) -> same_scheme_bare sb input = false ->
+  spec_scheme (spec_clean input) = Some (su_scheme sb, R) ->
   known_c01 (Some b) input = 0 -> in_proved_class3 (Some sb) input = true.
 Proof.
-  intros [Rl Hok] Hsb Hs Hbare Hk.
+  intros [Rl Hok] Hsb Hs Hk.
   destruct (known_base_scheme b input _ R Hs Hk) as (Hnf' & Hd & Hp).
   rewrite (related_path dbg shs b sb Rl) in Hp.
   destruct (sp_base_ok_facts sb Hsb) as (Hop & Hsp & Hnf & h & Eh).
-  unfold same_scheme_bare in Hbare. rewrite Hs, list_eqb_refl, Hsp in Hbare. cbn [andb] in Hbare.
-  destruct R as [|c t]; [discriminate Hbare|].
   pose proof Hok as Hok0. apply andb_true_iff in Hok0. destruct Hok0 as [Hcan HnsP].
   cbn [in_proved_class3].
+  assert (forall X, X = true -> in_class_same_bare sb input = X -> in_class_fragment_only input || in_class_query_only sb input
+            || in_class_opaque_base_fail sb input || in_class_empty_ref sb input || in_class_relative sb input
+            || in_class_abs_base sb input || in_class_relative_s sb input = true) as Kbare.
+  { intros X -> E. apply orb_intro_r. unfold in_class_relative_s. apply orb_intro_r. exact E. }
+  destruct R as [|c t].
+  { apply (Kbare _ eq_refl). unfold in_class_same_bare. rewrite Hsb, Hs, list_eqb_refl. reflexivity. }
+  destruct (is_qh c) eqn:Hbare.
+  { apply (Kbare _ eq_refl). unfold in_class_same_bare. rewrite Hsb, Hs, list_eqb_refl, Hbare. reflexivity. }
   destruct (is_sl c) eqn:Esl.
   - assert (is_path_end c = true) as Hpe by (unfold is_path_end; unfold is_sl in Esl; lia).
     destruct (match t with c2 :: _ => is_sl c2 | [] => false end) eqn:Esl2.
@@ -461,12 +458,12 @@ Proof.
       apply andb_true_iff. split; [|exact (nobase_covers input (known_base_own_scheme b input _ _ Hs Hk))].
       apply orb_intro_r. unfold same_two_sl. rewrite list_eqb_refl, Hsp, Hnf. cbn [negb andb].
       destruct t as [|c2 T]; [discriminate Esl2|]. cbn [two_sl]. rewrite Esl, Esl2. reflexivity.
-    + apply orb_intro_r. unfold in_class_relative_s. apply orb_true_iff. left. apply orb_intro_r.
+    + apply orb_intro_r. unfold in_class_relative_s. apply orb_true_iff. left. apply orb_true_iff. left. apply orb_intro_r.
       unfold in_class_same_abs_s. rewrite Hsb, Hs, list_eqb_refl, Esl, Esl2. cbn [negb andb].
       change (@nil N) with (upe in_path_set []).
       apply (spath_ok_s_raw t c [] []); [exact Hpe | reflexivity | reflexivity|].
       exact (hds_suffix [] None c t Hd).
-  - apply orb_intro_r. unfold in_class_relative_s. apply orb_intro_r.
+  - apply orb_intro_r. unfold in_class_relative_s. apply orb_true_iff. left. apply orb_intro_r.
     unfold in_class_same_path_s. rewrite Hsb, Hs, list_eqb_refl, Esl. cbn [negb andb].
     unfold is_qh in Hbare. apply orb_false_iff in Hbare. destruct Hbare as [E63 E35]. rewrite E63, E35. cbn [negb andb].
     assert (serialize_path sb = flat_map (fun s => 47 :: s) (Whatwg.path_segments sb)) as EP.
@@ -484,17 +481,17 @@ Qed.
    classes: class3_result_full) *)
 
 Theorem base_covers dbg shs b sb input :
-  good_base dbg shs b sb -> base_shape_ok sb = true -> same_scheme_bare sb input = false ->
+  good_base dbg shs b sb -> base_shape_ok sb = true ->
   known_c01 (Some b) input = 0 -> in_proved_class3 (Some sb) input = true.
 Proof.
-  intros Hb Hshape Hbare Hk. pose proof Hb as [Rl Hok].
+  intros Hb Hshape Hk. pose proof Hb as [Rl Hok].
   destruct (spec_scheme (spec_clean input)) as [[sch R]|] eqn:Hs.
   - destruct (is_special_scheme sch) eqn:Hsp; [|exact (own_scheme_base_covers sb b input sch R Hs (or_introl Hsp) Hk)].
     destruct (list_eqb (su_scheme sb) sch) eqn:Eq; [|exact (own_scheme_base_covers sb b input sch R Hs (or_intror Eq) Hk)].
     apply list_eqb_spec in Eq. subst sch.
     destruct (known_base_scheme b input _ R Hs Hk) as (Hnf & _).
     unfold base_shape_ok in Hshape. rewrite Hsp, Hnf in Hshape. cbn [negb orb] in Hshape.
-    exact (same_scheme_base_covers dbg shs b sb input R Hb Hshape Hs Hbare Hk).
+    exact (same_scheme_base_covers dbg shs b sb input R Hb Hshape Hs Hk).
   - destruct (known_base_noscheme b input Hs Hk) as (Hnf & _). rewrite (rel_sch _ _ _ _ Rl) in Hnf.
     destruct (is_special_scheme (su_scheme sb)) eqn:Hsp; [|exact (nonspecial_base_covers dbg shs b sb input Hb Hsp Hs Hk)].
     unfold base_shape_ok in Hshape. rewrite Hsp, Hnf in Hshape. cbn [negb orb] in Hshape.
@@ -555,16 +552,15 @@ Proof.
   exact (special_base_covers dbg shs b sb input Hb Hsb Hs Hk).
 Qed.
 
-(* any base: a good_base pair of the right shape, any reference outside Known_C01 except a bare same-scheme
-   reference *)
+(* any base: a good_base pair of the right shape, any reference outside Known_C01 *)
 Theorem statement_base b sb input : usv_list input ->
-  good_base dbg shs b sb -> base_shape_ok sb = true -> same_scheme_bare sb input = false ->
+  good_base dbg shs b sb -> base_shape_ok sb = true ->
   known_c01 (Some b) input = 0 ->
   host_hyp3 hp hpo hd shp shs (Some sb) input ->
   agree_good dbg shs (parse_url dbg hp hpo hd None (Some b) input) (spec_basic_url_parse shp input (Some sb)).
 Proof.
-  intros Hu Hb Hshape Hbare Hk HH. apply (partial_equivalence_good3 dbg hp hpo hd shp shs input (Some b) (Some sb) Hu Hb); [|exact HH].
-  exact (base_covers dbg shs b sb input Hb Hshape Hbare Hk).
+  intros Hu Hb Hshape Hk HH. apply (partial_equivalence_good3 dbg hp hpo hd shp shs input (Some b) (Some sb) Hu Hb); [|exact HH].
+  exact (base_covers dbg shs b sb input Hb Hshape Hk).
 Qed.
 
 (* ---------- all of it: no base, or a full_base pair ---------- *)
@@ -575,25 +571,22 @@ Definition full_rel (base : option url) (sbase : option spec_url) : Prop :=
   | _, _ => False
   end.
 
-Definition not_bare (sbase : option spec_url) (input : list N) : Prop :=
-  match sbase with Some sb => same_scheme_bare sb input = false | None => True end.
-
-Theorem all_covers input base sbase : full_rel base sbase -> not_bare sbase input ->
+Theorem all_covers input base sbase : full_rel base sbase ->
   known_c01 base input = 0 -> in_proved_class3 sbase input = true.
 Proof.
-  intros Hb Hbare Hk. destruct base as [b|]; destruct sbase as [sb|]; cbn [full_rel] in Hb; try contradiction.
-  - destruct Hb as [Hg Hs]. exact (base_covers dbg shs b sb input Hg Hs Hbare Hk).
+  intros Hb Hk. destruct base as [b|]; destruct sbase as [sb|]; cbn [full_rel] in Hb; try contradiction.
+  - destruct Hb as [Hg Hs]. exact (base_covers dbg shs b sb input Hg Hs Hk).
   - exact (nobase_covers input Hk).
 Qed.
 
 Theorem statement_all input base sbase : usv_list input ->
-  full_rel base sbase -> not_bare sbase input -> known_c01 base input = 0 ->
+  full_rel base sbase -> known_c01 base input = 0 ->
   host_hyp3 hp hpo hd shp shs sbase input ->
   agree_good dbg shs (parse_url dbg hp hpo hd None base input) (spec_basic_url_parse shp input sbase)
   /\ (forall su u, spec_basic_url_parse shp input sbase = BDone su -> parse_url dbg hp hpo hd None base input = POk u ->
         full_base dbg shs u su).
 Proof.
-  intros Hu Hb Hbare Hk HH. pose proof (all_covers input base sbase Hb Hbare Hk) as Hc.
+  intros Hu Hb Hk HH. pose proof (all_covers input base sbase Hb Hk) as Hc.
   assert (base_rel3 dbg shs base sbase) as Hb3.
   { destruct base as [b|]; destruct sbase as [sb|]; cbn [full_rel] in Hb; try contradiction; [exact (proj1 Hb) | exact I]. }
   pose proof (partial_equivalence_good3 dbg hp hpo hd shp shs input base sbase Hu Hb3 Hc HH) as A.
@@ -651,17 +644,17 @@ Qed.
 
 Theorem statement_base_model dbg idna : IdnaOK idna -> forall b sb input,
   usv_list input -> good_base dbg spec_host_serializer b sb -> base_shape_ok sb = true ->
-  same_scheme_bare sb input = false -> known_c01 (Some b) input = 0 ->
+  known_c01 (Some b) input = 0 ->
   agree_good dbg spec_host_serializer
     (parse_url dbg (host_parse idna) host_parse_opaque host_display None (Some b) input)
     (spec_basic_url_parse (spec_host_parser idna) input (Some sb)).
 Proof.
-  intros HI b sb input Hu Hb Hshape Hbare Hk. apply statement_base; try assumption.
+  intros HI b sb input Hu Hb Hshape Hk. apply statement_base; try assumption.
   apply host_hyp3_model; [exact (idna_out idna HI) | exact Hu].
 Qed.
 
 Theorem statement_all_model dbg idna : IdnaOK idna -> forall input base sbase,
-  usv_list input -> full_rel dbg spec_host_serializer base sbase -> not_bare sbase input -> known_c01 base input = 0 ->
+  usv_list input -> full_rel dbg spec_host_serializer base sbase -> known_c01 base input = 0 ->
   agree_good dbg spec_host_serializer
     (parse_url dbg (host_parse idna) host_parse_opaque host_display None base input)
     (spec_basic_url_parse (spec_host_parser idna) input sbase)
@@ -669,6 +662,6 @@ Theorem statement_all_model dbg idna : IdnaOK idna -> forall input base sbase,
         parse_url dbg (host_parse idna) host_parse_opaque host_display None base input = POk u ->
         full_base dbg spec_host_serializer u su).
 Proof.
-  intros HI input base sbase Hu Hb Hbare Hk. apply statement_all; try assumption.
+  intros HI input base sbase Hu Hb Hk. apply statement_all; try assumption.
   apply host_hyp3_model; [exact (idna_out idna HI) | exact Hu].
 Qed.
